@@ -116,7 +116,9 @@ def strip_warnings(out):
     return WARN.sub(b'', out)
 
 def intrinsic(case, io, ia):
-    g = case.meta['gen']
+    g = case.meta.get('gen')
+    if 'base' not in case.meta:
+        return None
     if g == 'original':
         _orig[case.meta['base']] = io
         return None
